@@ -683,6 +683,25 @@ def pyEmit (obj : Val) (label : String) (args : Val) : Res Val :=
     .val (.dict (setPair (attrKey "__out__") (.tuple (old ++ [.tuple [attrKey label, args]])) l))
   | _ => .exc
 
+/-- `"a%sb%sc" % (x, y)`: the literal pieces interleaved with `str()` of the arguments (numbers that are integers print
+    as integers; other numbers, `None`, booleans and containers print in a fixed model-specific form: only used for text
+    that no property observes) -/
+def pyFormatS (pieces args : Val) : Res Val :=
+  match pieces, args with
+  | .tuple ps, .tuple as =>
+    let strOf (v : Val) : List Char := match v with
+      | .str s => s
+      | .none => "None".toList
+      | .bool b => (if b then "True" else "False").toList
+      | .num q => if q.den = 1 then (toString q.num).toList else (toString q.num ++ "/" ++ toString q.den).toList
+      | _ => "<obj>".toList
+    let rec go : List Val → List Val → List Char
+      | (.str p) :: ps, a :: as => p ++ strOf a ++ go ps as
+      | (.str p) :: _, [] => p
+      | _, _ => []
+    .val (.str (go ps as))
+  | _, _ => .exc
+
 /-! ### exceptions (`try` / `except`) -/
 
 /-- which Python exceptions an `except` clause catches: `RuntimeError`, any *other* class (KeyError, ValueError, …:
